@@ -220,6 +220,9 @@ def _fm_sat(cs, limit=4000):
         if k not in seen:
             seen.add(k)
             cur.append(c)
+    cur = _subst_equalities(cur)
+    if cur is None:
+        return False
     while True:
         syms = {}
         for c in cur:
@@ -257,3 +260,43 @@ def _fm_sat(cs, limit=4000):
         cur = rest + new
         if len(cur) > limit:
             return True
+
+
+def _subst_equalities(cs):
+    """Eliminate symbols defined by an equality (both e <= 0 and -e <= 0 present) in which they have coefficient +-1,
+    by substitution; every rewritten constraint is re-normalised, so integer tightening sees e.g. 4K - 4q + 1 <= 0.
+    Returns None when a contradiction appears."""
+    cur = list(cs)
+    for _ in range(64):
+        keys = {c.key(): c for c in cur}
+        pick = None
+        for c in cur:
+            if (-c).key() in keys:
+                for sname, v in c.t.items():
+                    if abs(v) == 1:
+                        pick = (c, sname, v)
+                        break
+            if pick:
+                break
+        if not pick:
+            return cur
+        c, sname, v = pick
+        # sname = -(c - v*sname)/v
+        rest = Lin({k: x for k, x in c.t.items() if k != sname}, c.c)
+        repl = rest.scale(Fraction(-1) / v)
+        out = []
+        seen = set()
+        for d in cur:
+            if d.key() == c.key() or d.key() == (-c).key():
+                continue
+            if sname in d.t:
+                d = normalise(d.subst({sname: repl}))
+            if d.is_const():
+                if d.c > 0:
+                    return None
+                continue
+            if d.key() not in seen:
+                seen.add(d.key())
+                out.append(d)
+        cur = out
+    return cur
